@@ -105,6 +105,8 @@ int                vs_io_maxclamp = 8;
 int                vs_io_eagain;
 int                vs_tcp_grace_us;
 uint32_t           vs_random_seed = 0x12345678;
+int                vs_gai_fail_left; // lookups of names ending in ".invalid" still to fail with EAI_NONAME
+int                vs_gai_calls;     // lookups of such names so far
 int                vs_in_child;
 long               vs_io_calls;
 static long        step_cap = 3000000;
@@ -576,6 +578,27 @@ __wrap_nni_random(void)
 {
 	vs_random_seed = vs_random_seed * 1664525u + 1013904223u;
 	return vs_random_seed;
+}
+
+// names ending in ".invalid" are answered here (the sandbox has no resolver to ask, and a real lookup
+// would block for seconds of real time): the first vs_gai_fail_left lookups fail, later ones give
+// 127.0.0.1.  Everything else (numeric hosts) goes to libc.
+#include <netdb.h>
+int __real_getaddrinfo(const char *, const char *, const struct addrinfo *, struct addrinfo **);
+int
+__wrap_getaddrinfo(const char *node, const char *service, const struct addrinfo *hints,
+    struct addrinfo **res)
+{
+	size_t n = node ? strlen(node) : 0;
+	if (n > 8 && strcmp(node + n - 8, ".invalid") == 0) {
+		__atomic_add_fetch(&vs_gai_calls, 1, __ATOMIC_SEQ_CST);
+		if (vs_gai_fail_left > 0) {
+			vs_gai_fail_left--;
+			return EAI_NONAME;
+		}
+		return __real_getaddrinfo("127.0.0.1", service, hints, res);
+	}
+	return __real_getaddrinfo(node, service, hints, res);
 }
 
 // ---- the poll-descriptor pipe (nni_pollable) ---------------------------------------------
